@@ -20,7 +20,9 @@ try:
         key = sid
         extra = {'C01b': ['C11'], 'C02b': ['C10'], 'C05b': ['C10'], 'C04b': ['C10'], 'C06': ['C10'], 'C07': ['C10'], 'C08': ['C10'], 'C10b': ['C08'], 'C11b': ['C16'],
                  'C16': ['C12'], 'C16b': ['C12'], 'C20': ['C02'], 'C20b': ['C03'], 'C15b': ['C12'],
-                 'R2-C10': ['C05'], 'R3-C01': ['C10'], 'R3-C01b': ['C09'], 'R3-C02': ['C10'], 'R3-C02b': ['C15', 'C14'], 'R3-C04': ['C10'], 'R3-C05b': ['C09'], 'R3-C06b': ['C10'],
+                 'R2-C10': ['C05'], 'R4-C06': ['C10'], 'R4-C08b': ['C11'], 'R4-C10b': ['C15'], 'R4-C12b': ['C17'], 'R4-C13': ['C16'], 'R4-C14': ['C16'], 'R4-C15': ['C11'], 'R4-C16': ['C17'], 'R4-C19': ['C17'],
+                 'R4-C20': ['C11'], 'R4-C20b': ['C02'], 'R4-C01b': ['C10'], 'R4-C03': ['C10'], 'R4-C04': ['C10'], 'R4-C11': ['C12'], 'R4-C17b': ['C11'],
+                 'R3-C01': ['C10'], 'R3-C01b': ['C09'], 'R3-C02': ['C10'], 'R3-C02b': ['C15', 'C14'], 'R3-C04': ['C10'], 'R3-C05b': ['C09'], 'R3-C06b': ['C10'],
                  'R3-C07': ['C15', 'C14'], 'R3-C08': ['C10'], 'R3-C14': ['C15'], 'R3-C14b': ['C17'], 'R3-C20': ['C10', 'C02'], 'R3-C20b': ['C09'], 'R2-C13b': ['C17'], 'R2-C09': ['C04'], 'R2-C09b': ['C03'], 'R2-C11b': ['C12'], 'R2-C12': ['C11']}.get(sid, [])
         subprocess.run(['git', '-C', WT, 'apply', sd + '/patch.diff'], check=True)
         out = {}
